@@ -200,6 +200,8 @@ def run(ctx) -> None:
              "directly or through an uncopied local alias")
     ctx.rule("C09.R4-first-path-segment", "the first segment of a manifest key is taken with the path separator; os.pathsep is used only on environment values")
     ctx.rule("C09.R5-absolute-paths", "a producer starting with '/' never has a stage index")
+    ctx.rule("C09.R9-caller-stage-applies", "ParseProducerReference gives a producer that carries no stage prefix the stage its caller supplies: every "
+             "path to the return takes the stage from the reference itself or consults the caller's index (absolute paths apart)")
 
     m = ctx.repo.module(FLOWIR)
     cr = m.func("FlowIR.compile_reference")
@@ -487,3 +489,38 @@ def run(ctx) -> None:
     ok = bool(abs3)
     ctx.ob("C09.R5-absolute-paths", pdr, ok, "absolute references are split with os.path.split (directory / file)" if ok else
            "ParseDataReference no longer special-cases absolute paths", construct="if reference.startswith('/')")
+
+    # ---------------- R9 -------------------------------------------------------------------------------
+    # relative and absolute spelling name the same producer: the relative one gets its stage from the caller.  On every path to the return
+    # either the stage was read off the reference (a definition of the returned stage variable from int(..)), or the caller's index was
+    # consulted (a test of the index parameter), or the reference is an absolute path.  A path that does neither returns 'no stage' for
+    # a relative producer - e.g. for a component whose name contains a dot ('md.run/out.csv:ref' in stage 2) - while 'stage2.md.run/..'
+    # returns stage 2: the two spellings then name different producers
+    STAGE = rt[0].elts[0].id if rt and isinstance(rt[0].elts[0], ast.Name) else None
+    idx_param = ppr.args.args[2].arg if len(ppr.args.args) > 2 else None
+    ctx.require(STAGE is not None and idx_param is not None, "anchor missing: ParseProducerReference(cls, reference, index) returning (stage, name, flag)")
+    from_ref = [n for n in c2.nodes if n.kind == "stmt" and isinstance(n.ast, ast.Assign) and any(
+        isinstance(t, ast.Name) and t.id == STAGE for t in n.ast.targets) and any(
+        isinstance(x, ast.Call) and isinstance(x.func, ast.Name) and x.func.id == "int" for x in ast.walk(n.ast.value))]
+    idx_tests = [n for n in c2.nodes if n.kind == "test" and n.ast is not None and any(
+        isinstance(x, ast.Name) and x.id == idx_param for x in ast.walk(n.ast))]
+    idx_uses = [n for n in c2.nodes if n.kind == "stmt" and isinstance(n.ast, ast.Assign) and any(
+        isinstance(t, ast.Name) and t.id == STAGE for t in n.ast.targets) and any(
+        isinstance(x, ast.Name) and x.id == idx_param for x in ast.walk(n.ast.value))]
+    ret_nodes = [n for n in c2.nodes if n.kind == "stmt" and isinstance(n.ast, ast.Return)]
+    ctx.require(bool(from_ref) and bool(ret_nodes), "anchor missing: the stage read from the reference / the return of ParseProducerReference")
+    # the side of a test of the has-a-stage flag on which the flag is true stands for 'the stage was read off the reference', provided the
+    # flag is only raised after that definition
+    flag_edges = []
+    if all(c2.every_path_to_passes(s_, gates=from_ref) for s_ in sets_):
+        flag_edges = [(n.id, lab) for (n, lab) in match.test_nodes(c2, lambda t_: match.polarity(t_, lambda e: isinstance(e, ast.Name) and e.id == HASIDX))]
+    for rn in ret_nodes:
+        ok = c2.every_path_to_passes(rn, gates=from_ref + idx_tests + idx_uses, gate_edges=[(n.id, lab) for (n, lab) in abs_tests] + flag_edges,
+                                     ignore_labels=("exc", "raise", "uncaught"))
+        ctx.ob("C09.R9-caller-stage-applies", rn.ast, ok,
+               "on every path the stage comes from the reference or the caller's index is consulted" if ok else
+               "ParseProducerReference can return without a stage from the reference and without consulting the caller's index: a relative "
+               "producer on that path (a component name with a dot in it: 'md.run/out.csv:ref' in stage 2) parses to stage None while the "
+               "absolute spelling 'stage2.md.run/out.csv:ref' parses to stage 2 - graph.DataReference prints 'md.run:ref' as its absolute "
+               "form, validate_references misses a missing producer and replication skips the consumer",
+               construct="ParseProducerReference: stage from the reference or from the caller on every path")
